@@ -83,7 +83,11 @@ func (a *Analyzer) Normalize(f Facts) (Facts, map[string]*Term) {
 		}
 		for i := 0; i < 2; i++ {
 			l, r := at.Args[i], at.Args[1-i]
-			if l.Op == "ext" && len(l.Args) == 1 && l.Args[0].Op == "call" && a.calleeOf(l.Args[0]) != nil &&
+			base := l
+			if base.Op == "field" && len(base.Args) == 1 {
+				base = base.Args[0]
+			}
+			if base.Op == "ext" && len(base.Args) == 1 && base.Args[0].Op == "call" && a.calleeOf(base.Args[0]) != nil &&
 				!(r.Op == "ext" && len(r.Args) == 1 && r.Args[0].Op == "call" && r.Key() > l.Key()) {
 				internal := r.Contains(func(t *Term) bool { return t.Op == "phi" || t.Op == "unk" || t.Op == "make" })
 				if !r.ContainsKey(l.Key()) && r.Key() != tNil.Key() && !internal {
